@@ -18,10 +18,24 @@ import (
 	"strings"
 	"sync"
 	"sync/atomic"
+	"syscall"
 	"time"
 
 	"github.com/osrg/gobgp/v4/internal/verif/vr"
 )
+
+// The harness processes cap their address space: an unbounded attacker-driven make() then ends the
+// process at once (Go runtime "out of memory", reported by the driver as ENGINE-ERROR) instead of
+// driving the shared machine into the OOM killer. 16 workers x the largest known allocation
+// (13 MiB) stay far below the limit.
+func init() {
+	lim := syscall.Rlimit{Cur: 24 << 30, Max: 24 << 30}
+	var cur syscall.Rlimit
+	if syscall.Getrlimit(syscall.RLIMIT_AS, &cur) == nil && cur.Cur > lim.Cur {
+		lim.Max = cur.Max
+		_ = syscall.Setrlimit(syscall.RLIMIT_AS, &lim)
+	}
+}
 
 // Slack is the number of poison bytes placed behind len(data) (inside cap) in the slack modes.
 const Slack = 96
@@ -762,6 +776,7 @@ type Seed struct {
 	Name    string
 	Data    []byte
 	Entries []*Entry
+	NoPairs bool // exclude this seed from the thorough-tier fault pairs
 }
 
 // StrGroup is one all-strings enumeration: every string over Alpha up to MaxLen at each entry.
@@ -878,7 +893,11 @@ func (p *Plan) Run(r *vr.Report) {
 			s := &p.Seeds[si]
 			// rotate the shard so that short seeds do not all land on worker 0
 			ww := (w + si) % W
-			Mutants(s.Data, p.Opt, ww, W, func(m []byte, note string) {
+			opt := p.Opt
+			if s.NoPairs {
+				opt.Pairs = false
+			}
+			Mutants(s.Data, opt, ww, W, func(m []byte, note string) {
 				for _, e := range s.Entries {
 					o := c.Check(e, m, s.Name+" "+note)
 					if o.OK && note != "seed" && cr.WantSample() && (si+len(m))%7 == 0 {
